@@ -309,6 +309,7 @@ def run_property(pid: str, tier: str) -> int:
     known_met = []
     replays_run = 0
     unreproduced = []
+    unconfirmed = []
     for sig in sorted(failures):
         lst = failures[sig]
         f0 = min(lst, key=lambda f: len(json.dumps(f["input"], sort_keys=True)))
@@ -326,6 +327,14 @@ def run_property(pid: str, tier: str) -> int:
                 violations.append((sig, path, f0))
                 print(f"VIOLATION property={pid} replay={path}")
                 print(f"  signature: {sig}\n  inputs failing: {fail_counts[sig]}\n  detail: {f0['detail']}\n  input: {json.dumps(f0['input'])[:600]}")
+        elif status == "REPRODUCED" and getattr(mod, "UNCONFIRMED_OK", False):
+            # reproduced, under another signature (e.g. another perturbed site): still a violation
+            violations.append((sig, path, f0))
+            print(f"VIOLATION property={pid} replay={path}")
+            print(f"  signature: {sig} (replay reported {sigs})\n  detail: {f0['detail']}")
+        elif status == "NOT-REPRODUCED" and getattr(mod, "UNCONFIRMED_OK", False):
+            unconfirmed.append(sig)
+            print(f"UNCONFIRMED (modelled schedule only, no real hash seed among those tried shows it; not reported): {sig} replay={path}")
         else:
             unreproduced.append((sig, path, status, sigs))
             print(f"UNREPRODUCED counterexample (harness error, not a violation): {sig} replay={path} status={status} got={sigs}")
@@ -358,6 +367,7 @@ def run_property(pid: str, tier: str) -> int:
         "failure_signatures": {s: int(n) for s, n in fail_counts.items()},
         "harness_errors": harness_errors[:5],
         "unreproduced": [u[0] for u in unreproduced],
+        "unconfirmed": unconfirmed,
     }
     if level == "translation_validation":
         cov["programs"] = int(features.get("programs", evaluations or total["paths"]))
